@@ -6,6 +6,7 @@ promises.  The denotation `den` is evaluated under one fixed, universally quanti
 (uninterpreted sigma / tau / kappa), so every obligation holds for all assignments and trees of every depth.
 """
 import z3
+from collections import OrderedDict
 from MIP.geom.semantics import Surface, Cell, GeomExpression
 from MIP.geom import main as MIPMAIN
 from t4_geom_convert.Kernel.Volume import CellConversion as CCmod
@@ -491,6 +492,193 @@ class _UnionHelpers:
         lits = [t4_view(numbering[p], pt) > 0 for p in plus] + [t4_view(numbering[m], pt) < 0 for m in minus]
         yield 'equa-part-of-a-pure-union-is-empty', Not(And(*lits))
         yield 'operator-is-union-of-all-operands', ops == ('UNION', (5, 6))
+
+
+# ------------------------------------------------------------------ construct_volume_t4: the order and the filters of the phases
+
+class _StubCollection:
+    """dic_surface_t4 stand-in: number_items() by contract (an id -> surface numbering and a matching)."""
+    def __init__(self):
+        self.numbering = {5: 'T4 surface 5', 9: 'T4 surface 9'}
+        self.matching = {'matching': True}
+
+    def number_items(self):
+        return self.numbering, self.matching
+
+    def __iter__(self):
+        return iter(self.numbering)
+
+
+_PHASE_STATE = {}
+
+
+def _phase_hooks():
+    def rec(it, name, args, result=None):
+        it.p.calls.append({'callee': name, 'args': list(args), 'kw': {}, 'result': result})
+
+    def parse_cells(it, f, args, kw):
+        class _P:
+            def parse(self_inner):
+                return _PHASE_STATE['cells'], _PHASE_STATE['skipped']
+        return _P()
+
+    def apply_trcl(it, f, args, kw):
+        conv, trcl, geom = args[0], args[1], args[2]
+        # by contract (apply_trcl: pot_transform for each TRCL in order; nothing for an empty list)
+        res = OpaqueNode(stage='trcl', of=geom, by=tuple(map(tuple, trcl))) if trcl else geom
+        rec(it, 'apply_trcl', [trcl, geom], res)
+        return res
+
+    def pot_complement(it, f, args, kw):
+        res = OpaqueNode(stage='complement', of=args[1])
+        rec(it, 'pot_complement', [args[1]], res)
+        return res
+
+    def develop_lattice(it, f, args, kw):
+        conv, key = args[0], args[1]
+        cell = conv.dic_cell_mcnp[key]
+        rec(it, 'develop_lattice', [key, cell.geometry])
+        # by contract: the lattice cell is replaced by element cells (here one, filled with universe 3)
+        conv.new_cell_key += 1
+        conv.dic_cell_mcnp[conv.new_cell_key] = CellMCNP(cell.materialID, cell.density, OpaqueNode(stage='element', of=cell.geometry),
+                                                         cell.importance, cell.universe, 3, (), None, [], [])
+        del conv.dic_cell_mcnp[key]
+
+    def pot_fill(it, f, args, kw):
+        conv, key = args[0], args[1]
+        rec(it, 'pot_fill', [key, args[2], args[3] if len(args) > 3 else kw.get('inline_filled'),
+                             args[4] if len(args) > 4 else kw.get('inline_filling'), dict(conv.dic_cell_mcnp)])
+        cell = conv.dic_cell_mcnp[key]
+        conv.new_cell_key += 1
+        conv.dic_cell_mcnp[conv.new_cell_key] = CellMCNP('7', '-7.0', OpaqueNode(stage='filled', of=cell.geometry),
+                                                         cell.importance, 0, None, (), None, [], [(31, key)])
+        return [conv.new_cell_key]
+
+    def inline_cells(it, f, args, kw):
+        rec(it, 'inline_cells', [dict(args[0]), args[1]])
+
+    def pot_convert(it, f, args, kw):
+        conv, cell, matching, union_ids = args[0], args[1], args[2], args[3]
+        if cell.geometry.facts.get('patently_empty'):
+            rec(it, 'pot_convert', [cell, matching, union_ids], None)
+            return None
+        conv.new_cell_key += 1
+        j = conv.new_cell_key
+        conv.dic_vol_t4[j] = VolumeT4(pluses=[j], minuses=[], idorigin=list(cell.idorigin), fictive=True)
+        rec(it, 'pot_convert', [cell, matching, union_ids], j)
+        return j
+    def no_implicit(it, f, args, kw):
+        return set()                  # by contract (c04: extract_tr_surf_ids): these cells reference no implicit surface
+    no_implicit.callee_name = 'extract_tr_surf_ids'
+    hooks = {CV.extract_tr_surf_ids: no_implicit, CV.ParseMCNPCell: parse_cells, CellConversion.apply_trcl: apply_trcl, CellConversion.pot_complement: pot_complement,
+             CellConversion.develop_lattice: develop_lattice, CellConversion.pot_fill: pot_fill, CV.inline_cells: inline_cells,
+             CellConversion.pot_convert: pot_convert}
+    for h, n in ((parse_cells, 'ParseMCNPCell'), (apply_trcl, 'apply_trcl'), (pot_complement, 'pot_complement'),
+                 (develop_lattice, 'develop_lattice'), (pot_fill, 'pot_fill'), (inline_cells, 'inline_cells'),
+                 (pot_convert, 'pot_convert')):
+        h.callee_name = n
+    return hooks
+
+
+@contract(CV.construct_volume_t4, props=['C01', 'C05', 'C12', 'C04', 'C06'], name='ConstructVolumeT4.construct_volume_t4[phases]')
+class _Phases:
+    """The orchestration of the volume conversion, every phase replaced by its contract: every TRCL is applied
+    first, to the geometry of the cell that carries it; then complements are eliminated in every cell, on
+    the geometry the TRCL phase left; then every lattice cell is developed; then every level-0 cell with a FILL is
+    developed (all four inlining flags handed on), on the dictionary the lattice phase left; then inlining; then exactly the
+    level-0, unfilled cells of non-zero importance are converted -- in particular the pieces pot_fill made of a filled
+    cell, with that cell's importance -- and each gets a non-virtual volume under its own number that is a copy of the
+    volume pot_convert built (none for a patently empty cell); the two helper planes get fresh numbers."""
+    native = False
+    hooks = _phase_hooks()
+
+    def cases(S):
+        yield 'mixed-deck', {'inline': (False, True)}
+        yield 'mixed-deck,other-flags', {'inline': (True, False)}
+
+    def call(inline):
+        T = (1.0, 0.0, 0.0, 1.0, 0.0, 0.0, 0.0, 1.0, 0.0, 0.0, 0.0, 1.0)
+        g = {k: OpaqueNode(tag=f'g{k}', patently_empty=(k == 6)) for k in (1, 2, 3, 4, 5, 6, 20, 30)}
+        cells = {
+            1: CellMCNP('1', '-1.0', g[1], 1.0, 0, None, (), None, [], []),                  # plain
+            2: CellMCNP('1', '-1.0', g[2], 1.0, 0, None, (), None, [T], []),                 # with TRCL
+            3: CellMCNP('0', None, g[3], 1.0, 0, 2, (), None, [], []),                       # filled, importance 1
+            4: CellMCNP('0', None, g[4], 0.0, 0, 2, (), None, [], []),                       # filled, importance 0
+            5: CellMCNP('1', '-1.0', g[5], 0.0, 0, None, (), None, [], []),                  # importance 0
+            6: CellMCNP('1', '-1.0', g[6], 1.0, 0, None, (), None, [], []),                  # patently empty
+            20: CellMCNP('2', '-2.0', g[20], 1.0, 2, None, (), None, [], []),                # in universe 2
+            30: CellMCNP('3', '-3.0', g[30], 1.0, 2, LatticeSpecStub(), (), 1, [], []),      # lattice cell in universe 2
+        }
+        _PHASE_STATE['cells'] = cells
+        _PHASE_STATE['skipped'] = [4, 5]
+        coll = _StubCollection()
+        res = CV.construct_volume_t4(None, {}, None, coll, CollectionDictStub(), inline[0], inline[1], 1.0)
+        return res, g, coll
+
+    def ensures(result, inline, calls):
+        (dic_vol, mcnp_dict, numbering, skipped, union_ids), g, coll = result
+        c = calls.calls
+        names = [x['callee'] for x in c]
+        first = {n: names.index(n) for n in set(names)}
+        last = {n: len(names) - 1 - names[::-1].index(n) for n in set(names)}
+        yield 'phases-in-order', (last.get('apply_trcl', -1) < first['pot_complement'] and
+                                  last['pot_complement'] < first['develop_lattice'] and
+                                  last['develop_lattice'] < first['pot_fill'] and last['pot_fill'] < first['inline_cells']
+                                  and last['inline_cells'] < first['pot_convert'])
+        trcl = [x for x in c if x['callee'] == 'apply_trcl']
+        yield 'every-trcl-applied-to-the-geometry-of-its-own-cell', (
+            all(any(x['args'][1] is g[k] for x in trcl) for k in (2,)) and
+            all((len(x['args'][0]) == 1) == (x['args'][1] is g[2]) for x in trcl) and
+            sum(1 for x in trcl if x['args'][0]) == 1)
+        compl = [x['args'][0] for x in c if x['callee'] == 'pot_complement']
+        yield 'complements-eliminated-in-every-cell', len(compl) == 8 and all(
+            any((a is g[k]) or (isinstance(a, Opaque) and a.facts.get('of') is g[k]) for a in compl) for k in g)
+        yield 'complements-see-the-moved-geometry', any(isinstance(a, Opaque) and a.facts.get('stage') == 'trcl' and
+                                                        a.facts.get('of') is g[2] for a in compl)
+        lat = [x['args'][0] for x in c if x['callee'] == 'develop_lattice']
+        yield 'every-lattice-cell-developed', lat == [30]
+        fills = [x for x in c if x['callee'] == 'pot_fill']
+        # (developing the zero-importance filled cell 4 as well is allowed: its pieces are never converted, see below)
+        yield 'live-level-0-filled-cells-developed', (3 in [x['args'][0] for x in fills] and
+                                                      set(x['args'][0] for x in fills) <= {3, 4})
+        yield 'fill-sees-the-developed-lattice', all(30 not in x['args'][4] and any(
+            isinstance(v.geometry, Opaque) and v.geometry.facts.get('stage') == 'element' for v in x['args'][4].values())
+            for x in fills)
+        yield 'inlining-flags-handed-on', all((x['args'][2], x['args'][3]) == tuple(inline) for x in fills)
+        conv = [x for x in c if x['callee'] == 'pot_convert']
+        conv_cells = [x['args'][0] for x in conv]
+        # expected: cells 1, 2, 6 and the piece made of cell 3 (importance 1); not 4, 5, their pieces, universe cells
+        def origin(cell):
+            geo = cell.geometry
+            while isinstance(geo, Opaque) and 'of' in geo.facts:
+                geo = geo.facts['of']
+            return geo
+        origins = [origin(x) for x in conv_cells]
+        yield 'exactly-the-live-level-0-unfilled-cells-converted', (
+            len(conv_cells) == 4 and all(any(o is g[k] for o in origins) for k in (1, 2, 6, 3)) and
+            all(x.importance != 0 and x.universe == 0 and x.fillid is None for x in conv_cells))
+        yield 'same-matching-and-helper-planes-for-every-cell', all(x['args'][1] is coll.matching and x['args'][2] == union_ids
+                                                                      for x in conv)
+        keys = [k for k in mcnp_dict if any(mcnp_dict[k] is x for x in conv_cells)]
+        made = {k: next(x['result'] for x in conv if x['args'][0] is mcnp_dict[k]) for k in keys}
+        yield 'one-real-volume-per-converted-cell', all(
+            (made[k] is None and k not in dic_vol) or
+            (made[k] is not None and k in dic_vol and dic_vol[k].fictive is False and dic_vol[k].pluses == dic_vol[made[k]].pluses)
+            for k in keys)
+        yield 'no-volume-for-anything-else', all(k in keys or k in made.values() for k in dic_vol)
+        yield 'helper-planes-fresh-and-numbered', (union_ids[0] != union_ids[1] and all(u not in (5, 9) and u in numbering
+                                                                                        for u in union_ids))
+        yield 'skipped-cells-reported', list(skipped) == [4, 5]
+
+
+class LatticeSpecStub:
+    """fillid of the lattice cell before development (never inspected by the orchestrator itself)."""
+
+
+class CollectionDictStub(dict):
+    """dic_surface_mcnp: only its keys are read by the orchestrator (free surface key, implicit surfaces)."""
+    def __init__(self):
+        super().__init__({5: [], 9: []})
 
 
 # ------------------------------------------------------------------ pot_to_t4_cell (depth unbounded, width bounded)
